@@ -149,6 +149,15 @@ func (c *AbsC2) UnmarshalJSON(b []byte) error {
 	return nil
 }
 
+// MarshalJSON writes the lower-case keys UnmarshalJSON reads (so that saved behaviours parse back).
+func (c AbsC2) MarshalJSON() ([]byte, error) {
+	if c.Null {
+		return []byte(`{"null":true}`), nil
+	}
+	return json.Marshal(map[string]any{"r": c.R, "h": c.H, "ra": c.Ra, "ha": c.Ha, "mh": c.Mh, "coll": c.Coll, "ph": c.Ph, "eh": c.Eh,
+		"rn": c.Rn, "cap": c.Cap, "size": c.Size, "rk": c.Rk, "hk": c.Hk, "auth": c.Auth})
+}
+
 // Post is the abstract committed state after a step.
 type Post struct {
 	None bool              `json:"none"`
